@@ -168,10 +168,12 @@ class Spec:
         self.concrete_in = ()       # modes in which the parameters keep their constructed (concrete) values
 
 
-def build(h, ctx, spec, mode=None):
+def build(h, ctx, spec, mode=None, dtype=None):
     m = spec.make()
     if spec.eval_mode:
         m.eval()
+    if dtype is not None:
+        m = m.to(dtype)        # real nn.Module conversion (.double()): parameters and buffers are converted by the real _apply
     if mode in spec.concrete_in:
         return m
     params = symbolise_module(h, m)
@@ -180,13 +182,15 @@ def build(h, ctx, spec, mode=None):
     return m
 
 
-def transform_harness(spec, mode, props):
+def transform_harness(spec, mode, props, dtype=None):
     """mode: 'forward' (C01, C12, C13, C19 on forward), 'inverse' (C17 raises-iff, C12.. on inverse),
     'fi' (forward o inverse), 'if' (inverse o forward)"""
 
+    xdtype = dtype or spec.dtype
+
     def mk_inputs(h, ctx):
-        x = h.inp("x", spec.shape, spec.dtype)
-        c = h.inp("context", spec.ctx_shape, spec.dtype) if spec.ctx_shape else None
+        x = h.inp("x", spec.shape, xdtype)
+        c = h.inp("context", spec.ctx_shape, xdtype) if spec.ctx_shape else None
         return x, c
 
     def assume_domain(ctx, x, dom):
@@ -195,7 +199,7 @@ def transform_harness(spec, mode, props):
                 ctx.assume(dom(t))
 
     def run(h, ctx):
-        m = build(h, ctx, spec, mode)
+        m = build(h, ctx, spec, mode, dtype)
         h.module = m
         x, c = mk_inputs(h, ctx)
         if mode == "forward":
@@ -374,6 +378,6 @@ def transform_harness(spec, mode, props):
             return spec.native_outside(inp["x"], mode)
         if hasattr(spec, "native_outside"):
             nraises = {InputOutsideDomain: nat_out}
-    return Harness(f"{spec.name}[{mode}]", run, post, raises=raises, native_call=native_call, native_clauses=native_clauses,
+    return Harness(f"{spec.name}[{mode}{',' + str(dtype).replace('torch.', '') if dtype else ''}]", run, post, raises=raises, native_call=native_call, native_clauses=native_clauses,
                    native_raises=nraises, sample=sample, functions=[spec.cls.forward, spec.cls.inverse] if spec.cls else [],
                    config={"transform": spec.name, "mode": mode, "shape": list(spec.shape)})
